@@ -268,6 +268,27 @@ func backwardSlice(fn *ssa.Function, seeds []ssa.Value, seedInstrs []ssa.Instruc
 				continue // identity only: the arguments of the call do not matter either
 			}
 		}
+		if c, isCall := v.(*ssa.Call); isCall && !c.Call.IsInvoke() {
+			// a function literal without captured variables handed to a library callback (slices.ContainsFunc(xs, func...))
+			// is a plain function value among the arguments: what it computes is part of what the result depends on
+			if sc := c.Call.StaticCallee(); sc != nil && (pkgOf(sc) == nil || !strings.HasPrefix(pkgOf(sc).Pkg.Path(), Module)) {
+				for _, a := range c.Call.Args {
+					t, isFn := a.(*ssa.Function)
+					if !isFn || t.Blocks == nil || pkgOf(t) == nil || !strings.HasPrefix(pkgOf(t).Pkg.Path(), Module) {
+						continue
+					}
+					if _, known := dynFns[t]; !known {
+						dynFns[t] = nil
+					}
+					for _, ret := range Returns(t) {
+						for _, rv := range ReturnValues(ret) {
+							addV(rv)
+						}
+						addBlock(ret.Block())
+					}
+				}
+			}
+		}
 		if mc, isMC := v.(*ssa.MakeClosure); isMC {
 			// a closure that flows into the slice (handed to slices.ContainsFunc, sort.Slice, ... as callback): what it
 			// computes is part of what the slice depends on
